@@ -436,8 +436,10 @@ def check_c17(tier):
             srv.initialize(root)
             srv.did_open(cpath, FIX_TXT + "\n\n@pytest.fixture\ndef z():\n    return 2\n")
             diags = srv.did_open(tpath, text)
-            und = [d for d in diags if d.get("code") == "undeclared-fixture" and "'fx'" in d.get("message", "")]
+            use_line = next(i for i, l in enumerate(text.split("\n")) if USE_EXPR[c["cs"]["use"]] in l)
+            und = [d for d in diags if d.get("code") == "undeclared-fixture" and d["range"]["start"]["line"] == use_line]
             out["diags"] = und
+            out["use_line"] = use_line
             if und:
                 acts = srv.request("textDocument/codeAction", {"textDocument": {"uri": lsp.path_to_uri(tpath)},
                                                                "range": und[0]["range"], "context": {"diagnostics": [und[0]]}})
@@ -500,7 +502,7 @@ def check_c17(tier):
         if r.get("fixed_text") and isinstance(r.get("diags_after"), list):
             try:
                 _ast.parse(r["fixed_text"])
-                still = [d for d in r["diags_after"] if d.get("code") == "undeclared-fixture" and "'fx'" in d.get("message", "")]
+                still = [d for d in r["diags_after"] if d.get("code") == "undeclared-fixture" and d["range"]["start"]["line"] == r.get("use_line")]
                 if still and "fx" in (fn_params(_ast.parse(r["fixed_text"]), "test_t") or []):
                     V.violation(dict(ex, after=r["fixed_text"], diagnostics=still), "the warning survives the quick fix and re-analysis")
             except SyntaxError:
@@ -692,10 +694,12 @@ def check_c18(tier):
         if got != want:
             V.classify(c18_dev(c, got, want), e2, "completion does not offer exactly the usable fixtures at this cursor line")
             continue
-        for i in r["items"]:
-            if i["label"] in want and c["expect"]["ctx"] in ("signature", "body"):
-                if not i["sortText"] or i["sortText"][0] != str(c["expect"]["order"][i["label"]]):
-                    V.violation(dict(e2, item=i), "completion sort order does not rank same file < conftest < plugin < third-party")
+        if c["expect"]["ctx"] in ("signature", "body"):
+            ranked = sorted((i for i in r["items"] if i["label"] in want), key=lambda i: (i["sortText"] or i["label"]))
+            ranks = [c["expect"]["order"][i["label"]] for i in ranked]
+            if ranks != sorted(ranks):
+                V.violation(dict(e2, sorted_labels=[i["label"] for i in ranked]),
+                            "completion sort order does not rank same file < conftest < plugin < third-party")
         if c["expect"]["ctx"] == "body" and want and not all(i["edits"] for i in r["items"] if i["label"] in want):
             V.violation(e2, "a body completion does not carry the parameter edit")
     shutil.rmtree(base, ignore_errors=True)
